@@ -60,10 +60,12 @@ func newWorld(r *rand.Rand, o worldOpts) *World {
 	nbas := 1 + r.Intn(4)
 	nunk := r.Intn(3)
 	maxEnts := 0
+	wide := false
 	if r.Intn(15) == 0 {
 		// a big world now and then: counts beyond small-map sizes, buffer sizes and single digits
-		nrec, nbas, nunk = 12+r.Intn(14), 9+r.Intn(6), 5+r.Intn(8)
-		o.MaxDays, maxEnts = 25+r.Intn(20), 30
+		nrec, nbas, nunk = 12+r.Intn(14), 34+r.Intn(16), 20+r.Intn(20)
+		o.MaxDays, maxEnts = 25+r.Intn(20), 90
+		wide = true
 		if o.MinDays > o.MaxDays {
 			o.MinDays = o.MaxDays
 		}
@@ -86,7 +88,7 @@ func newWorld(r *rand.Rand, o worldOpts) *World {
 			w.Basics[nbas-1] = v
 		}
 	}
-	w.Book = gen.RandomBook(r, gen.BookOpts{Recipes: nrec, Basics: nbas, MaxDepth: 1 + r.Intn(4), Exact: o.Exact, RecipeNames: w.Recipes, BasicNames: w.Basics, NoEmpty: o.NoEmpty, NoZero: o.NoZero})
+	w.Book = gen.RandomBook(r, gen.BookOpts{Recipes: nrec, Basics: nbas, MaxDepth: 1 + r.Intn(4), Exact: o.Exact, RecipeNames: w.Recipes, BasicNames: w.Basics, NoEmpty: o.NoEmpty, NoZero: o.NoZero, Wide: wide})
 	foods := append(append(append([]string{}, w.Recipes...), w.Recipes...), w.Basics...)
 	foods = append(foods, w.Unknown...)
 	days := o.MinDays + r.Intn(o.MaxDays-o.MinDays+1)
